@@ -85,8 +85,8 @@ CtxIdx(c) ==
   CASE c = "A" -> <<>>
     [] c = "B" -> <<[prior |-> 0, depth |-> 1, m |-> (XA :> 11)]>>
     [] c = "C" -> <<[prior |-> 0, depth |-> 1, m |-> Empty]>>
-RevInit ==
-  \E c \in {"A", "B", "C"} :
+CtxInit(C) ==
+  \E c \in C :
     /\ idx = CtxIdx(c) /\ segs = CtxSegs(c)
     /\ per = IF c = "A" THEN [Closed EXCEPT !.open = TRUE]
              ELSE [open |-> TRUE, parent |-> <<1, 1>>, fp |-> NewFp(PriorAtIn(CtxSegs(c), 1, 1)),
@@ -94,6 +94,18 @@ RevInit ==
     /\ fper = FClosed /\ braid = NoBraid /\ cps = <<>>
     /\ last = Rec("init", NoX, 0, 0, 0, 0, "ok", ObsIn(CtxSegs(c), per, FClosed))
     /\ hist = CtxHist(c)
+RevInit == CtxInit({"A", "B", "C"})
+(* C12 mid-segment configuration: over a committed prior index (contexts B, C) build one segment
+   of up to MaxCmds commands with up to MaxCur updates each (so that a fact of the prior index is
+   overwritten and then deleted inside the segment, with further commands after the delete),
+   write it, and reopen it at EVERY command both as a graph perspective and as a bare fact
+   perspective: both are rebuilt by replaying the recorded per-command updates. *)
+MidInit == CtxInit({"B", "C"})
+MidBound == /\ Bound
+            /\ last'.o \in {"insert", "delete", "add_command", "write", "open", "open_facts"}
+            /\ (last'.o \in {"open", "open_facts"} => last.o = "write" /\ last'.s = Len(segs))
+            /\ last.o \notin {"open", "open_facts"}
+EmitMid == MidBound /\ (last'.o \in {"open", "open_facts", "write"} => EmitStep)   \* the rest are prefixes
 RevBound ==
   /\ Bound
   /\ last'.o \notin {"new_perspective", "open_facts"}
